@@ -52,6 +52,25 @@ Theorem C20_unlimited_retries_never_drop : forall c b evs, drops (crun (-1) c b 
 Proof. exact no_drop_unlimited. Qed.
 Print Assumptions C20_unlimited_retries_never_drop.
 
+(* which Commands a controller takes (the filter of its Command informer handler): for
+   every list of delivered Commands, one whose TargetObject is not a reference to a Job
+   (resp. Queue) of exactly the controller's API group/version and kind — nil target, other
+   group, other version, empty apiVersion, other kind — is neither deleted nor executed and
+   stays present; every request stems from an accepted Command and carries its namespace
+   (job controller), target name and action *)
+Theorem C20_foreign_commands_untouched : forall l, let '(obs, jr, qr) := informer_run l in
+  (forall d, In d l -> accepts 1 d = false -> accepts 2 d = false -> In (deletes_of d, true) obs /\ deletes_of d = 0%nat) /\
+  (forall r, In r jr -> exists d, In d l /\ accepts 1 d = true /\ r = dreq 1 d) /\
+  (forall r, In r qr -> exists d, In d l /\ accepts 2 d = true /\ r = dreq 2 d) /\
+  (forall d, In d l -> (deletes_of d <= 1)%nat).
+Proof. exact foreign_commands_untouched. Qed.
+Print Assumptions C20_foreign_commands_untouched.
+
+Theorem C20_law_filter_accepts_model : forall l,
+  let '(obs, jr, qr) := informer_run l in law_filter l obs jr qr = true.
+Proof. exact law_filter_holds. Qed.
+Print Assumptions C20_law_filter_accepts_model.
+
 (* the CLI against a faulty API server, for EVERY answer to the GET and EVERY script of
    answers to the POST (created / persisted-then-Timeout / Timeout / ServerTimeout / 5xx /
    AlreadyExists / Conflict): at most one Command is left behind, at most one POST is made,
